@@ -149,6 +149,10 @@ def neg(e):
     return ("neg", e)
 
 
+def bnot(e):
+    return ("not", e)
+
+
 def par(e):
     return ("par", e)
 
@@ -172,7 +176,7 @@ def expr_consistent(e):
         return True
     if tag == "par":
         return expr_consistent(e[1])
-    if tag == "neg":
+    if tag in ("neg", "not"):
         return e[1][0] in ("lit", "k", "par") and expr_consistent(e[1])
     if tag == "bin":
         _, op, a, b = e
@@ -194,6 +198,8 @@ def expr_rust(e):
         return e[2]
     if tag == "neg":
         return "-" + expr_rust(e[1])
+    if tag == "not":
+        return "!" + expr_rust(e[1])
     if tag == "par":
         return "(" + expr_rust(e[1]) + ")"
     if tag == "bin":
@@ -229,6 +235,8 @@ def expr_sexp(e):
         return "(k %s)" % e[1]
     if tag == "neg":
         return "(neg %s)" % expr_sexp(e[1])
+    if tag == "not":
+        return "(not %s)" % expr_sexp(e[1])
     if tag == "par":
         return "(par %s)" % expr_sexp(e[1])
     if tag == "bin":
@@ -254,8 +262,9 @@ def grp(ts):
     return ("g", list(ts))
 
 
-def tstr(s):
-    return ("str", s)
+def tstr(s, raw=False):
+    """string literal token; raw: spelled r#".."# (same value, hence the same model token)"""
+    return ("str", s, "raw") if raw else ("str", s)
 
 
 def tx(e):
@@ -310,7 +319,7 @@ def toks_rust(ts, fnrender):
         elif tag == "g":
             out.append("(" + toks_rust(t[1], fnrender) + ")")
         elif tag == "str":
-            out.append(rust_str(t[1]))
+            out.append('r#"%s"#' % t[1] if len(t) > 2 and t[2] == "raw" else rust_str(t[1]))
         elif tag == "x":
             out.append(expr_rust(t[1]))
         elif tag == "fn":
@@ -372,7 +381,7 @@ class Decl:
 
         def ex(e):
             e = list(e)
-            if e[0] in ("neg", "par"):
+            if e[0] in ("neg", "par", "not"):
                 return (e[0], ex(e[1]))
             if e[0] == "bin":
                 return ("bin", e[1], ex(e[2]), ex(e[3]))
